@@ -37,10 +37,12 @@ pub enum ScalarHow {
     EllPlus1,
     HighBit,
     AllFF,
+    /// flip one bit of the 32-byte encoding
+    FlipBit(u8),
 }
 impl ScalarHow {
     pub fn canonical(&self) -> bool {
-        !matches!(self, ScalarHow::Ell | ScalarHow::EllPlus1 | ScalarHow::HighBit | ScalarHow::AllFF)
+        !matches!(self, ScalarHow::Ell | ScalarHow::EllPlus1 | ScalarHow::HighBit | ScalarHow::AllFF | ScalarHow::FlipBit(_))
     }
 
     pub fn apply(&self, old: &[u8; 32]) -> [u8; 32] {
@@ -63,6 +65,11 @@ impl ScalarHow {
                 b
             },
             ScalarHow::AllFF => [0xff; 32],
+            ScalarHow::FlipBit(i) => {
+                let mut b = *old;
+                b[*i as usize / 8] ^= 1 << (*i % 8);
+                b
+            },
         }
     }
 }
@@ -77,6 +84,7 @@ pub fn scalar_how() -> impl Strategy<Value = ScalarHow> {
         1 => Just(ScalarHow::EllPlus1),
         1 => Just(ScalarHow::HighBit),
         1 => Just(ScalarHow::AllFF),
+        2 => any::<u8>().prop_map(ScalarHow::FlipBit),
     ]
 }
 
@@ -94,6 +102,8 @@ pub enum PointHow {
     Generator(u16),
     Identity,
     Undecodable,
+    /// flip one bit of the 32-byte encoding (may or may not decode afterwards)
+    FlipBit(u8),
 }
 pub fn point_how() -> impl Strategy<Value = PointHow> {
     prop_oneof![
@@ -104,6 +114,7 @@ pub fn point_how() -> impl Strategy<Value = PointHow> {
         2 => any::<u16>().prop_map(PointHow::Generator),
         1 => Just(PointHow::Identity),
         1 => Just(PointHow::Undecodable),
+        2 => any::<u8>().prop_map(PointHow::FlipBit),
     ]
 }
 
@@ -143,6 +154,11 @@ impl PointHow {
             },
             PointHow::Identity => [0u8; 32],
             PointHow::Undecodable => UNDECODABLE,
+            PointHow::FlipBit(i) => {
+                let mut b = *old;
+                b[*i as usize / 8] ^= 1 << (*i % 8);
+                b
+            },
         }
     }
 }
@@ -331,6 +347,8 @@ pub enum PromHow {
     /// 2^bits (out of range unless bits == 64, where it is skipped)
     TwoPowBits,
     U64Max,
+    /// flip bit i of the promise (i is reduced modulo the bit length, so the result stays in range)
+    FlipBitInRange(u8),
 }
 pub fn prom_how() -> impl Strategy<Value = PromHow> {
     prop_oneof![
@@ -342,6 +360,7 @@ pub fn prom_how() -> impl Strategy<Value = PromHow> {
         1 => Just(PromHow::MaxInRange),
         1 => Just(PromHow::TwoPowBits),
         1 => Just(PromHow::U64Max),
+        2 => any::<u8>().prop_map(PromHow::FlipBitInRange),
     ]
 }
 impl PromHow {
@@ -362,6 +381,7 @@ impl PromHow {
                 }
             },
             PromHow::U64Max => Some(u64::MAX),
+            PromHow::FlipBitInRange(i) => Some(o ^ (1u64 << (*i as usize % bits))),
         }
     }
 }
